@@ -37,7 +37,8 @@ macro_rules | `(tactic| invr_step $hi $h $f) => `(tactic|
 
 theorem invR_step {c : Cfg} {s s' : State} {t : Nat} {l : Label} (hi : InvR s) (h : step c s t l = some s') :
     InvR s' := by
-  cases l <;> simp only [step] at h
+  replace h := step_step0 h
+  cases l <;> simp only [step0] at h
   case call op a => invr_step hi h stepCall
   case advance d => simp at h; subst h; exact ⟨hi.ok, hi.reg⟩
   case read => invr_step hi h stepRead
@@ -56,6 +57,8 @@ theorem invR_step {c : Cfg} {s s' : State} {t : Nat} {l : Label} (hi : InvR s) (
   case oiEv => invr_step hi h stepOiEv
   case oiAdd => invr_step hi h stepOiAdd
   case clear => invr_step hi h stepClear
+  case clrAcq i => invr_step hi h stepClrAcq
+  case clrGet i => invr_step hi h stepClrGet
   case mLock => invr_step hi h stepMLock
   case recv => invr_step hi h stepRecv
   case admit d => invr_step hi h stepAdmit
